@@ -123,6 +123,8 @@ class ReadTagFragmentedResponsePacket(ReadTagResponsePacket):
 
     def _parse_reply(self):
         super()._parse_reply(dont_parse=True)
+        if self.data is None:  # the reply could not be parsed, the error is already recorded
+            return
         if self.data[:2] == STRUCTURE_READ_REPLY:
             self.value_bytes = self.data[4:]
             self._data_type = self.data[:4]
